@@ -84,10 +84,12 @@ Record rstate := mkR {
   r_buf : nat;                        (* buflen *)
   r_reg : list (conn * submap);       (* the registry *)
   r_pubs : list conn;                 (* read lock holders of the outer map = publishes in progress *)
+  r_cancel : list conn;               (* sessions whose context was cancelled while their recv loop was
+                                         inside router.recv / sendServerMsgCtx: the loop has not returned yet *)
   r_cs : conn -> cst
 }.
 
-Definition r_init (buf : nat) : rstate := mkR buf [] [] (fun _ => c_init).
+Definition r_init (buf : nat) : rstate := mkR buf [] [] [] (fun _ => c_init).
 
 (** NewRouterHandler: panics unless buflen is positive *)
 Definition new_router (buflen : Z) : option rstate :=
@@ -250,7 +252,9 @@ Inductive label :=
 | LRun (c : conn)                           (* the recv goroutine of c executes its next atomic step *)
 | LVisit (c c' : conn) (ord : list str)     (* publisher c enters the inner map of c' (iteration order ord) *)
 | LTake (c : conn)                          (* forwarder of c: msg := <-subCh *)
-| LDeliver (c : conn).                      (* forwarder of c: send <- msg *)
+| LDeliver (c : conn)                       (* forwarder of c: send <- msg *)
+| LSkip (c : conn).                         (* recv goroutine of c, context cancelled: sendServerMsgCtx takes the
+                                               ctx.Done() case, the reply is not sent *)
 
 Definition set_pc (st : cst) (pc : list instr) : cst :=
   mkC pc (c_q st) (c_hand st) (c_out st) (c_rd st) (c_ctr st) (c_dead st) (c_ops st) (c_drops st).
@@ -259,7 +263,7 @@ Definition set_rd (st : cst) (n : list conn) : cst :=
 Definition push_out (st : cst) (m : smsg) : cst :=
   mkC (c_pc st) (c_q st) (c_hand st) (c_out st ++ [m]) (c_rd st) (c_ctr st) (c_dead st) (c_ops st) (c_drops st).
 
-Definition with_cs (s : rstate) (f : conn -> cst) : rstate := mkR (r_buf s) (r_reg s) (r_pubs s) f.
+Definition with_cs (s : rstate) (f : conn -> cst) : rstate := mkR (r_buf s) (r_reg s) (r_pubs s) (r_cancel s) f.
 
 (** the program of one client operation.  TryGet only reads, and only the
     connection's own goroutine ever adds or removes its entry, so its result
@@ -282,6 +286,9 @@ Definition program (s : rstate) (c : conn) (o : op) : list instr :=
   end.
 
 Definition is_disc (o : op) : bool := match o with ODisc => true | _ => false end.
+
+Definition is_reply_instrb (i : instr) : bool :=
+  match i with IEose _ | ICount _ | IOk _ => true | _ => false end.
 
 (** which steps have to wait *)
 Definition enabled (s : rstate) (l : label) : bool :=
@@ -308,17 +315,24 @@ Definition start_visit (s : rstate) (c c' : conn) (ord : list str) (e : event) (
 Definition run_instr (s : rstate) (c : conn) : rstate :=
   let st := r_cs s c in
   match c_pc st with
-  | [] => s
+  | [] =>
+      (* the loop's select sees ctx.Done(): ServeNostr returns, its deferred calls run.  From here on
+         this is the disconnect of an idle connection. *)
+      if mem_conn c (r_cancel s)
+      then mkR (r_buf s) (r_reg s) (r_pubs s) (remove_conn c (r_cancel s))
+               (upd (r_cs s) c (mkC [IUnsubAll] (c_q st) (c_hand st) (c_out st) (c_rd st) (c_ctr st)
+                                    true (c_ops st ++ [ODisc]) (c_drops st)))
+      else s
   | IRegAdd :: rest =>
-      mkR (r_buf s) (reg_set c [] (r_reg s)) (r_pubs s) (upd (r_cs s) c (set_pc st rest))
+      mkR (r_buf s) (reg_set c [] (r_reg s)) (r_pubs s) (r_cancel s) (upd (r_cs s) c (set_pc st rest))
   | ISubAdd sub fs :: rest =>
       match reg_get c (r_reg s) with
-      | Some m => mkR (r_buf s) (reg_set c (sm_set sub fs m) (r_reg s)) (r_pubs s) (upd (r_cs s) c (set_pc st rest))
+      | Some m => mkR (r_buf s) (reg_set c (sm_set sub fs m) (r_reg s)) (r_pubs s) (r_cancel s) (upd (r_cs s) c (set_pc st rest))
       | None => with_cs s (upd (r_cs s) c (set_pc st rest))   (* unreachable: the entry exists, see [Inv] *)
       end
   | ISubDel sub :: rest =>
       match reg_get c (r_reg s) with
-      | Some m => mkR (r_buf s) (reg_set c (sm_del sub m) (r_reg s)) (r_pubs s) (upd (r_cs s) c (set_pc st rest))
+      | Some m => mkR (r_buf s) (reg_set c (sm_del sub m) (r_reg s)) (r_pubs s) (r_cancel s) (upd (r_cs s) c (set_pc st rest))
       | None => with_cs s (upd (r_cs s) c (set_pc st rest))
       end
   | IEose sub :: rest => with_cs s (upd (r_cs s) c (push_out (set_pc st rest) (MEose sub)))
@@ -328,9 +342,9 @@ Definition run_instr (s : rstate) (c : conn) : rstate :=
       let t := (c, c_ctr st) in
       let st' := mkC (IPub e t (List.map fst (r_reg s)) :: rest) (c_q st) (c_hand st) (c_out st) (c_rd st)
                      (S (c_ctr st)) (c_dead st) (c_ops st) (c_drops st) in
-      mkR (r_buf s) (r_reg s) (c :: r_pubs s) (upd (r_cs s) c st')
+      mkR (r_buf s) (r_reg s) (c :: r_pubs s) (r_cancel s) (upd (r_cs s) c st')
   | IPub e t [] :: rest =>
-      mkR (r_buf s) (r_reg s) (remove_conn c (r_pubs s)) (upd (r_cs s) c (set_pc st rest))
+      mkR (r_buf s) (r_reg s) (remove_conn c (r_pubs s)) (r_cancel s) (upd (r_cs s) c (set_pc st rest))
   | IPub e t (c' :: rem) :: rest => start_visit s c c' [] e t (c' :: rem) rest
   | IVisit e t c' [] :: rest =>
       let cs1 := upd (r_cs s) c (set_pc st rest) in
@@ -341,7 +355,7 @@ Definition run_instr (s : rstate) (c : conn) : rstate :=
       with_cs s (upd cs1 c' (send_if_match (r_buf s) e t sub fs (cs1 c')))
   | IUnsubAll :: rest =>
       let st' := mkC rest [] None (c_out st) (c_rd st) (c_ctr st) (c_dead st) (c_ops st) (c_drops st) in
-      mkR (r_buf s) (reg_del c (r_reg s)) (r_pubs s) (upd (r_cs s) c st')
+      mkR (r_buf s) (reg_del c (r_reg s)) (r_pubs s) (r_cancel s) (upd (r_cs s) c st')
   end.
 
 Definition step_enabled (s : rstate) (l : label) : rstate :=
@@ -350,11 +364,16 @@ Definition step_enabled (s : rstate) (l : label) : rstate :=
       let st := r_cs s c in
       match c_pc st with
       | [] =>
-          if c_dead st then s
+          if c_dead st || mem_conn c (r_cancel s) then s
           else with_cs s (upd (r_cs s) c
                  (mkC (program s c o) (c_q st) (c_hand st) (c_out st) (c_rd st) (c_ctr st)
                       (is_disc o) (c_ops st ++ [o]) (c_drops st)))
-      | _ :: _ => s
+      | _ :: _ =>
+          (* the recv loop is busy: a client message waits in recv (the label has no effect); the
+             cancellation of the session's context, however, happens at once and is noticed later *)
+          if is_disc o && negb (c_dead st) && negb (mem_conn c (r_cancel s))
+          then mkR (r_buf s) (r_reg s) (r_pubs s) (c :: r_cancel s) (r_cs s)
+          else s
       end
   | LRun c => run_instr s c
   | LVisit c c' ord =>
@@ -377,6 +396,13 @@ Definition step_enabled (s : rstate) (l : label) : rstate :=
       | Some m =>
           with_cs s (upd (r_cs s) c (mkC (c_pc st) (c_q st) None (c_out st ++ [m]) (c_rd st) (c_ctr st) (c_dead st) (c_ops st) (c_drops st)))
       | None => s
+      end
+  | LSkip c =>
+      let st := r_cs s c in
+      match c_pc st with
+      | i :: rest =>
+          if mem_conn c (r_cancel s) && is_reply_instrb i then with_cs s (upd (r_cs s) c (set_pc st rest)) else s
+      | [] => s
       end
   end.
 
@@ -468,6 +494,6 @@ Definition sub_of (s : rstate) (c : conn) (sub : str) : option (list rfilter) :=
 (** labels of the goroutines of connection [c] (its recv loop) *)
 Definition label_of_conn (c : conn) (l : label) : bool :=
   match l with
-  | LOp c' _ | LRun c' | LVisit c' _ _ => Nat.eqb c c'
+  | LOp c' _ | LRun c' | LVisit c' _ _ | LSkip c' => Nat.eqb c c'
   | _ => false
   end.
